@@ -33,10 +33,13 @@ theorem isPeak_swap {α : Type} (o : Ops α) (first middle last : α) :
   cases o.lt o.zero first <;> cases o.lt o.zero last <;> cases o.lt first middle <;>
     cases o.lt last middle <;> rfl
 
+omit [LawfulOrderLT F] [IsLinearOrder F] [OrderedRing F] in
 theorem sigmaSq_swap (first middle last : F) :
     sigmaSq (fieldOps top) g first middle last = sigmaSq (fieldOps top) g last middle first := by
   simp only [sigmaSq, fieldOps_mul, fieldOps_div]
   rw [CommSemiring.mul_comm first last]
+
+attribute [local instance] Semiring.natCast
 
 /-- `TpcPadRow::z` is odd about the mid-plane, from the constants of the code:
 `row as f64` is the cast, `0.5 + 0.5 = 1`, `DETECTOR_HALF_LENGTH = 288 · PAD_PITCH_Z`. -/
@@ -45,9 +48,25 @@ theorem rowZ_mirror (hofNat : ∀ n : Nat, g.ofNat n = (n : F)) (hhalf : g.half 
     rowZ (fieldOps top) g (575 - r) = - rowZ (fieldOps top) g r := by
   simp only [rowZ, fieldOps_add, fieldOps_sub, fieldOps_mul, hofNat, hlen]
   have h1 : ((575 - r : Nat) : F) + (r : F) = 575 := by
-    rw [← Semiring.natCast_add, Nat.sub_add_cancel (by omega), Semiring.natCast_eq_ofNat]
+    rw [← Semiring.natCast_add, Nat.sub_add_cancel (by omega)]
+    exact (Semiring.ofNat_eq_natCast 575).symm
   grind
 
+omit [LawfulOrderLT F] [IsLinearOrder F] [OrderedRing F] in
+/-- `hitZ_mirror` for a column of `n` rows (`n = 576` in the code). -/
+theorem hitZ_mirror_gen (n : Nat)
+    (hlog : ∀ a b : F, 0 < a → 0 < b → g.log (a / b) = - g.log (b / a))
+    (hrow : ∀ r, r < n → rowZ (fieldOps top) g (n - 1 - r) = - rowZ (fieldOps top) g r)
+    (row : Nat) (first middle last : F) (hf : 0 < first) (hl : 0 < last)
+    (h1 : 1 ≤ row) (h2 : row ≤ n) :
+    hitZ (fieldOps top) g (n + 1 - row) last middle first
+      = - hitZ (fieldOps top) g row first middle last := by
+  simp only [hitZ, sigmaSq_swap top g last middle first, fieldOps_add, fieldOps_mul, fieldOps_div]
+  have e : n + 1 - row - 1 = n - 1 - (row - 1) := by omega
+  rw [e, hrow (row - 1) (by omega), hlog first last hf hl]
+  grind
+
+omit [LawfulOrderLT F] [IsLinearOrder F] [OrderedRing F] in
 /-- Mirror of one hit: the triple `(last, middle, first)` whose last element sits at row
 `577 − row` (rows `575 − row, 576 − row, 577 − row`, i.e. the mirror images of rows
 `row, row − 1, row − 2`) gives exactly the negated `z`. -/
@@ -57,11 +76,317 @@ theorem hitZ_mirror
     (row : Nat) (first middle last : F) (hf : 0 < first) (hl : 0 < last)
     (h1 : 1 ≤ row) (h2 : row ≤ 576) :
     hitZ (fieldOps top) g (577 - row) last middle first
-      = - hitZ (fieldOps top) g row first middle last := by
-  simp only [hitZ, sigmaSq_swap top g last middle first, fieldOps_add, fieldOps_mul, fieldOps_div]
-  have e : 577 - row - 1 = 575 - (row - 1) := by omega
-  rw [e, hrow (row - 1) (by omega), hlog first last hf hl]
+      = - hitZ (fieldOps top) g row first middle last :=
+  hitZ_mirror_gen top g 576 hlog hrow row first middle last hf hl h1 h2
+
+end
+
+/-! ### 2. `pad_hits_at_t` without the sliding window, and its mirror image -/
+
+section
+variable {α : Type} (o : Ops α) (g : Geo α)
+
+/-- The hit (if any) of the triple `(first, middle, last)` whose `last` sits at `row`. -/
+def hitAt (row : Nat) (first middle last : α) : Option (PadHit α) :=
+  if isPeak o first middle last then some ⟨hitZ o g row first middle last, middle⟩ else none
+
+theorem padHitsGo_eq (t : Nat) (rest : List (List α)) (row : Nat) (first middle : α) :
+    padHitsGo o g t rest row first middle
+      = (List.range rest.length).filterMap fun i =>
+          hitAt o g (row + i)
+            ((first :: middle :: rest.map (sampleAt o · t)).getD i o.zero)
+            ((first :: middle :: rest.map (sampleAt o · t)).getD (i + 1) o.zero)
+            ((first :: middle :: rest.map (sampleAt o · t)).getD (i + 2) o.zero) := by
+  induction rest generalizing row first middle with
+  | nil => simp [padHitsGo]
+  | cons inp rest ih =>
+    rw [padHitsGo, ih, List.length_cons, List.range_succ_eq_map, List.filterMap_cons,
+      List.filterMap_map]
+    simp only [hitAt, List.map_cons, List.getD_cons_zero, List.getD_cons_succ, Nat.add_zero,
+      Function.comp_def]
+    have e : ∀ i, row + 1 + i = row + Nat.succ i := by intro i; omega
+    simp only [e]
+    split <;> simp
+
+/-- `pad_hits_at_t` as a filter over the row index `i` of `first`: with
+`x = column.map (sample at t)`, the triple `(x i, x (i+1), x (i+2))` is tested and the hit is
+placed relative to row `i + 1` (`hitZ` takes the row of `last`). -/
+theorem padHitsAtT_eq (column : List (List α)) (t : Nat) :
+    padHitsAtT o g column t
+      = (List.range (column.length - 2)).filterMap fun i =>
+          hitAt o g (i + 2)
+            ((column.map (sampleAt o · t)).getD i o.zero)
+            ((column.map (sampleAt o · t)).getD (i + 1) o.zero)
+            ((column.map (sampleAt o · t)).getD (i + 2) o.zero) := by
+  match column with
+  | [] => simp [padHitsAtT]
+  | [_] => simp [padHitsAtT]
+  | r0 :: r1 :: rest =>
+    have e : rest.length + 1 + 1 - 2 = rest.length := by omega
+    simp only [padHitsAtT, padHitsGo_eq, List.length_cons, List.map_cons, e, Nat.add_comm 2]
+
+/-- `(column.map sample).getD i 0` is the sample of row `i` (an absent row reads `0.0`, like an
+empty input). -/
+theorem getD_map_sampleAt (column : List (List α)) (t i : Nat) :
+    (column.map (sampleAt o · t)).getD i o.zero = sampleAt o (column.getD i []) t := by
+  simp only [List.getD_eq_getElem?_getD, List.getElem?_map]
+  cases column[i]? <;> simp [sampleAt]
+
+/-- The form with `x i = sample of row i`. -/
+theorem padHitsAtT_eq' (column : List (List α)) (t : Nat) :
+    padHitsAtT o g column t
+      = (List.range (column.length - 2)).filterMap fun i =>
+          hitAt o g (i + 2) (sampleAt o (column.getD i []) t)
+            (sampleAt o (column.getD (i + 1) []) t) (sampleAt o (column.getD (i + 2) []) t) := by
+  simp only [padHitsAtT_eq, getD_map_sampleAt]
+
+end
+
+/-- Reading a range backwards. -/
+theorem filterMap_range_mirror {β : Type} (f : Nat → Option β) (m : Nat) :
+    (List.range m).filterMap (fun i => f (m - 1 - i)) = ((List.range m).filterMap f).reverse := by
+  induction m with
+  | zero => simp
+  | succ m ih =>
+    have e : ((fun i => f (m + 1 - 1 - i)) ∘ Nat.succ) = fun i => f (m - 1 - i) := by
+      funext i
+      simp only [Function.comp_def]
+      congr 1
+      omega
+    conv => lhs; rw [List.range_succ_eq_map, List.filterMap_cons, List.filterMap_map, e]
+    conv => rhs; rw [List.range_succ, List.filterMap_append, List.reverse_append, ← ih]
+    simp only [Nat.add_sub_cancel, Nat.sub_zero]
+    cases hfm : f m <;> simp [hfm]
+
+theorem filterMap_congr' {β γ : Type} (f f' : β → Option γ) (l : List β)
+    (h : ∀ x ∈ l, f x = f' x) : l.filterMap f = l.filterMap f' := by
+  induction l with
+  | nil => rfl
+  | cons a l ih =>
+    rw [List.filterMap_cons, List.filterMap_cons, h a List.mem_cons_self,
+      ih fun x hx => h x (List.mem_cons_of_mem a hx)]
+
+theorem map_range_mirror {β : Type} (f : Nat → β) (m : Nat) :
+    (List.range m).map (fun i => f (m - 1 - i)) = ((List.range m).map f).reverse := by
+  have := filterMap_range_mirror (fun i => some (f i)) m
+  simpa [List.filterMap_eq_map'] using this
+
+theorem getD_reverse_lt {β : Type} (l : List β) (d : β) (i : Nat) (h : i < l.length) :
+    l.reverse.getD i d = l.getD (l.length - 1 - i) d := by
+  simp [List.getD_eq_getElem?_getD, List.getElem?_reverse h]
+
+section
+variable {F : Type} [Field F] [LE F] [LT F] [LawfulOrderLT F] [IsLinearOrder F] [OrderedRing F]
+  [DecidableLT F] [DecidableLE F]
+variable (top : F) (g : Geo F)
+
+/-- `z ↦ −z` on a pad hit. -/
+def negZ (h : PadHit F) : PadHit F := ⟨-h.z, h.amplitude⟩
+
+omit [LawfulOrderLT F] [IsLinearOrder F] [OrderedRing F] in
+theorem hitAt_mirror (n : Nat)
+    (hlog : ∀ a b : F, 0 < a → 0 < b → g.log (a / b) = - g.log (b / a))
+    (hrow : ∀ r, r < n → rowZ (fieldOps top) g (n - 1 - r) = - rowZ (fieldOps top) g r)
+    (row : Nat) (first middle last : F) (h1 : 1 ≤ row) (h2 : row ≤ n) :
+    hitAt (fieldOps top) g (n + 1 - row) last middle first
+      = (hitAt (fieldOps top) g row first middle last).map negZ := by
+  simp only [hitAt, isPeak_swap (fieldOps top) last middle first]
+  by_cases hp : isPeak (fieldOps top) first middle last = true
+  · have hpos : 0 < first ∧ 0 < last := by
+      simp only [isPeak, fieldOps_lt, fieldOps_zero, Bool.and_eq_true, decide_eq_true_eq] at hp
+      exact ⟨hp.1.1.1, hp.1.1.2⟩
+    simp [hp, negZ, hitZ_mirror_gen top g n hlog hrow row first middle last hpos.1 hpos.2 h1 h2]
+  · simp [hp]
+
+omit [LawfulOrderLT F] [IsLinearOrder F] [OrderedRing F] in
+/-- `padHits_mirror` for a column of any length `n`. -/
+theorem padHits_mirror_gen
+    (hlog : ∀ a b : F, 0 < a → 0 < b → g.log (a / b) = - g.log (b / a))
+    (column : List (List F))
+    (hrow : ∀ r, r < column.length →
+      rowZ (fieldOps top) g (column.length - 1 - r) = - rowZ (fieldOps top) g r)
+    (t : Nat) :
+    padHitsAtT (fieldOps top) g column.reverse t
+      = ((padHitsAtT (fieldOps top) g column t).map negZ).reverse := by
+  rw [padHitsAtT_eq, padHitsAtT_eq, ← List.map_reverse, ← filterMap_range_mirror,
+    List.map_filterMap, List.length_reverse]
+  apply filterMap_congr'
+  intro i hi
+  rw [List.mem_range] at hi
+  have hn : (List.map (fun x => sampleAt (fieldOps top) x t) column).length = column.length :=
+    List.length_map _
+  rw [List.map_reverse, getD_reverse_lt _ _ i (by omega), getD_reverse_lt _ _ (i + 1) (by omega),
+    getD_reverse_lt _ _ (i + 2) (by omega), hn]
+  have e0 : column.length - 1 - (i + 2) = column.length - 2 - 1 - i := by omega
+  have e1 : column.length - 1 - (i + 1) = column.length - 2 - 1 - i + 1 := by omega
+  have e2 : column.length - 1 - i = column.length - 2 - 1 - i + 2 := by omega
+  have e3 : i + 2 = column.length + 1 - (column.length - 2 - 1 - i + 2) := by omega
+  rw [e0, e1, e2, e3]
+  exact hitAt_mirror top g column.length hlog hrow _ _ _ _ (by omega) (by omega)
+
+omit [LawfulOrderLT F] [IsLinearOrder F] [OrderedRing F] in
+/-- **Mirror symmetry of `pad_hits_at_t`.** The column read backwards (row `r ↦ 575 − r`) yields
+the same hits in reverse order, with the same amplitudes and `z` negated exactly. -/
+theorem padHits_mirror
+    (hlog : ∀ a b : F, 0 < a → 0 < b → g.log (a / b) = - g.log (b / a))
+    (hrow : ∀ r, r < 576 → rowZ (fieldOps top) g (575 - r) = - rowZ (fieldOps top) g r)
+    (column : List (List F)) (hlen : column.length = 576) (t : Nat) :
+    padHitsAtT (fieldOps top) g column.reverse t
+      = ((padHitsAtT (fieldOps top) g column t).map
+          fun h => (⟨-h.z, h.amplitude⟩ : PadHit F)).reverse :=
+  padHits_mirror_gen top g hlog column (by rw [hlen]; exact hrow) t
+
+end
+
+/-! ### 3. The pad inputs of the mirrored event -/
+
+theorem padInputs_mirror {α : Type} (P : Params α) (ev : Event α) (c : Nat) :
+    padInputs P (mirror ev) c = (padInputs P ev c).reverse := by
+  simp only [padInputs, mirror]
+  generalize nRows = n
+  exact map_range_mirror (fun row => match ev.pads c row with
+    | some signal => P.padDeconv signal
+    | none => []) n
+
+theorem padInputs_length {α : Type} (P : Params α) (ev : Event α) (c : Nat) :
+    (padInputs P ev c).length = 576 := by
+  simp [padInputs, nRows]
+
+theorem assignments_mirror {α : Type} (P : Params α) (ev : Event α) :
+    assignments P (mirror ev) = assignments P ev := rfl
+
+/-! ### 4. A strictly descending sort does not depend on the input order -/
+
+theorem filterMap_getElem?_range {β : Type} (l : List β) :
+    (List.range l.length).filterMap (fun i => l[i]?) = l := by
+  induction l with
+  | nil => rfl
+  | cons a l ih =>
+    rw [List.length_cons, List.range_succ_eq_map, List.filterMap_cons, List.filterMap_map]
+    simpa [Function.comp_def] using ih
+
+theorem applyPerm_perm {β : Type} (p : List Nat) (l : List β)
+    (hp : p.Perm (List.range l.length)) : (applyPerm p l).Perm l := by
+  have := hp.filterMap (fun i => l[i]?)
+  rwa [filterMap_getElem?_range] at this
+
+theorem applyPerm_map {β γ : Type} (f : β → γ) (p : List Nat) (l : List β) :
+    applyPerm p (l.map f) = (applyPerm p l).map f := by
+  simp only [applyPerm, List.map_filterMap, List.getElem?_map]
+
+section
+variable {F : Type} [Field F] [LE F] [LT F] [LawfulOrderLT F] [IsLinearOrder F] [OrderedRing F]
+  [DecidableLT F] [DecidableLE F]
+variable (top : F) (g : Geo F) (s : Sorter F)
+
+omit [LawfulOrderLT F] [IsLinearOrder F] [OrderedRing F] in
+theorem sortPadHits_perm (hs : IsDescSort (fieldOps top) s) (l : List (PadHit F)) :
+    (sortPadHits s l).Perm l := by
+  apply applyPerm_perm
+  have := (hs (l.map (·.amplitude))).1
+  rwa [List.length_map] at this
+
+/-- The sorted hits are strictly descending in amplitude when the amplitudes are distinct. -/
+theorem sortPadHits_strict (hs : IsDescSort (fieldOps top) s) (l : List (PadHit F))
+    (hnd : (l.map (·.amplitude)).Nodup) :
+    (sortPadHits s l).Pairwise (fun a b => b.amplitude < a.amplitude) := by
+  have h1 := (hs (l.map (·.amplitude))).2
+  rw [applyPerm_map] at h1
+  have h2 : ((sortPadHits s l).map (·.amplitude)).Nodup :=
+    ((sortPadHits_perm top s hs l).map (·.amplitude)).symm.nodup hnd
+  have h3 := List.Pairwise.and h1 h2
+  rw [List.pairwise_map] at h3
+  refine h3.imp ?_
+  intro a b hab
+  simp only [fieldOps_lt, decide_eq_false_iff_not] at hab
   grind
+
+/-- Two descending sorts of permutations of the same hits with pairwise distinct amplitudes
+agree: in particular the order of the input does not matter. -/
+theorem sort_unique (hs : IsDescSort (fieldOps top) s) (l : List (PadHit F))
+    (hnd : (l.map (·.amplitude)).Nodup) :
+    sortPadHits s l.reverse = sortPadHits s l := by
+  have hnd' : (l.reverse.map (·.amplitude)).Nodup := by
+    rw [List.map_reverse]
+    exact (List.reverse_perm _).symm.nodup hnd
+  refine List.Perm.eq_of_pairwise (le := fun a b : PadHit F => b.amplitude < a.amplitude) ?_
+    (sortPadHits_strict top s hs _ hnd') (sortPadHits_strict top s hs _ hnd) ?_
+  · intro a b _ _ h1 h2
+    exact absurd h1 (by grind)
+  · exact ((sortPadHits_perm top s hs _).trans (List.reverse_perm l)).trans
+      (sortPadHits_perm top s hs l).symm
+
+omit [LE F] [LT F] [LawfulOrderLT F] [IsLinearOrder F] [OrderedRing F] [DecidableLT F]
+  [DecidableLE F] in
+/-- The sort reads the amplitudes only. -/
+theorem sortPadHits_map_negZ (l : List (PadHit F)) :
+    sortPadHits s (l.map negZ) = (sortPadHits s l).map negZ := by
+  have e : (l.map negZ).map (·.amplitude) = l.map (·.amplitude) := by
+    rw [List.map_map]; rfl
+  rw [sortPadHits, e, applyPerm_map]
+  rfl
+
+/-! ### 5. `match_column_inputs` and `MainEvent::avalanches` of the mirrored event -/
+
+/-- `z ↦ −z` on an avalanche (`t`, wire, amplitudes unchanged). -/
+def negZA (a : Avalanche F) : Avalanche F := { a with z := -a.z }
+
+theorem matchAtT_mirror (hs : IsDescSort (fieldOps top) s)
+    (hlog : ∀ a b : F, 0 < a → 0 < b → g.log (a / b) = - g.log (b / a))
+    (indices : List Nat) (wireInputs column : List (List F))
+    (hrow : ∀ r, r < column.length →
+      rowZ (fieldOps top) g (column.length - 1 - r) = - rowZ (fieldOps top) g r)
+    (t : Nat) (hnd : ((padHitsAtT (fieldOps top) g column t).map (·.amplitude)).Nodup) :
+    matchAtT (fieldOps top) g s indices wireInputs column.reverse t
+      = (matchAtT (fieldOps top) g s indices wireInputs column t).map negZA := by
+  simp only [matchAtT]
+  split
+  · rfl
+  · have hnd' : (((padHitsAtT (fieldOps top) g column t).map negZ).map (·.amplitude)).Nodup := by
+      rw [List.map_map]; exact hnd
+    rw [padHits_mirror_gen top g hlog column hrow t, sort_unique top s hs _ hnd',
+      sortPadHits_map_negZ, List.zipWith_map_right, List.map_zipWith]
+    rfl
+
+theorem flatMap_congr' {β γ : Type} (f f' : β → List γ) (l : List β)
+    (h : ∀ x ∈ l, f x = f' x) : l.flatMap f = l.flatMap f' := by
+  induction l with
+  | nil => rfl
+  | cons a l ih =>
+    rw [List.flatMap_cons, List.flatMap_cons, h a List.mem_cons_self,
+      ih fun x hx => h x (List.mem_cons_of_mem a hx)]
+
+theorem matchColumn_mirror (hs : IsDescSort (fieldOps top) s)
+    (hlog : ∀ a b : F, 0 < a → 0 < b → g.log (a / b) = - g.log (b / a))
+    (indices : List Nat) (wireInputs column : List (List F))
+    (hrow : ∀ r, r < column.length →
+      rowZ (fieldOps top) g (column.length - 1 - r) = - rowZ (fieldOps top) g r)
+    (hnd : ∀ t, ((padHitsAtT (fieldOps top) g column t).map (·.amplitude)).Nodup) :
+    matchColumn (fieldOps top) g s indices wireInputs column.reverse
+      = (matchColumn (fieldOps top) g s indices wireInputs column).map negZA := by
+  simp only [matchColumn, List.map_flatMap]
+  exact flatMap_congr' _ _ _ fun t _ =>
+    matchAtT_mirror top g s hs hlog indices wireInputs column hrow t (hnd t)
+
+/-- **Mirror symmetry of `MainEvent::avalanches`.** If within every pad column and time bin the
+pad-hit amplitudes are pairwise distinct, the event with the pad rows mirrored (`r ↦ 575 − r`)
+reconstructs the same avalanches — same order, wires, times, amplitudes — with `z` negated. -/
+theorem avalanches_mirror (hs : IsDescSort (fieldOps top) s)
+    (hlog : ∀ a b : F, 0 < a → 0 < b → g.log (a / b) = - g.log (b / a))
+    (hrow : ∀ r, r < 576 → rowZ (fieldOps top) g (575 - r) = - rowZ (fieldOps top) g r)
+    (P : Params F) (ev : Event F)
+    (hnd : ∀ c, c < 32 → ∀ t,
+      ((padHitsAtT (fieldOps top) g (padInputs P ev c) t).map (·.amplitude)).Nodup) :
+    avalanches (fieldOps top) g s P (mirror ev)
+      = (avalanches (fieldOps top) g s P ev).map fun a => { a with z := -a.z } := by
+  simp only [avalanches, assignments_mirror, padInputs_mirror, List.map_flatMap]
+  apply flatMap_congr'
+  intro c hc
+  have hc' : c < 32 := by
+    simp only [padColumns, List.mem_filter, List.mem_range, nColumns] at hc
+    exact hc.1
+  exact matchColumn_mirror top g s hs hlog _ _ _
+    (by rw [padInputs_length]; exact hrow) (hnd c hc')
 
 end
 end AlphaG.Matching
